@@ -168,6 +168,7 @@ type c02Derived struct {
 	TokenLen  int               `json:"token_len"`
 	Randomize bool              `json:"randomize_tp"`
 	Suppress  []uint64          `json:"suppress"`
+	Accessors bool              `json:"accessors,omitempty"` // the application calls the spec's read-only accessors (TransportParameterIDs) before dialing
 	UDPMin    int               `json:"udp_min"`
 	Builder   string            `json:"builder"` // keep nil random multi
 	Server    string            `json:"server"`
@@ -227,6 +228,7 @@ func TestVerifC02Derived(t *testing.T) {
 		for k := rng.IntN(3); k > 0; k-- {
 			d.Sched.Faults = append(d.Sched.Faults, simworld.Fault{Dir: wiretap.Dir(rng.IntN(2)), Ordinal: rng.IntN(6), Action: acts[rng.IntN(len(acts))]})
 		}
+		d.Accessors = rng.IntN(2) == 0
 		d.Name = fmt.Sprintf("derived/%05d/%s", i, d.Base)
 		cases = append(cases, d)
 	}
@@ -243,6 +245,12 @@ func TestVerifC02Derived(t *testing.T) {
 			if err != nil {
 				c.Violation("C02|derived|spec-error", err.Error(), nil)
 				return
+			}
+			if cs.Accessors {
+				// reading what the spec will put on the wire must not change what it puts on the wire
+				spec.TransportParameterIDs()
+				spec.TransportParameterIDs()
+				l.Count("derived_specs_read_before_dial", 1)
 			}
 			opt := quicworld.Options{Schedule: cs.Sched, RTT: 10 * time.Millisecond, ClientKind: "spec", Spec: spec,
 				ServerConf: &quic.Config{MaxIdleTimeout: 60 * time.Second, HandshakeIdleTimeout: 20 * time.Second},
